@@ -99,6 +99,12 @@ type vc13Round struct {
 	CancelReq int  `json:"cancel_req,omitempty"`
 	CancelMid bool `json:"cancel_mid,omitempty"`
 
+	// Fresh names the rule lists whose cache files the harness does not age
+	// before this round: if such a file was written in the round before, it
+	// is within its staleness interval, and the code reads it instead of
+	// downloading.
+	Fresh []string `json:"fresh,omitempty"`
+
 	// Parallel runs the refresh of the storage and of the three hash-prefix
 	// filters at the same time, as their refresh workers may.
 	Parallel bool `json:"parallel,omitempty"`
@@ -166,6 +172,7 @@ type vc13RoundInfo struct {
 	// is invalid), garbage or fault.
 	svcClass  string
 	svcFlavor string
+	svcPos    string
 
 	// uncertain is set if a body of exactly the size limit is delivered; the
 	// progress clauses are not asked in such a round.
@@ -799,7 +806,7 @@ func (w *vc13World) plan(n int, rd *vc13Round) (resps map[string]*vc13Resp, info
 			return vc13Body(s, n, fill, flavor, pad)
 		}
 
-		valid := flavor == "" || flavor == "junk" || flavor == "emptyrules"
+		valid := flavor == "" || flavor == "junk" || strings.HasPrefix(flavor, "emptyrules")
 		ui := add(s.path, sc, mk, valid, w.pub[s.path])
 		ui.flavor = flavor
 		ui.rejected = ui.ok && flavor == "longline"
@@ -815,20 +822,25 @@ func (w *vc13World) plan(n int, rd *vc13Round) (resps map[string]*vc13Resp, info
 		}
 
 		if s.kind == vc13KindSvc {
-			info.svcFlavor = flavor
+			base, pos := vc13SvcFlavor(flavor)
+			info.svcFlavor, info.svcPos = base, pos
 			switch {
 			case !ui.ok:
 				info.svcClass = "fault"
-			case flavor == "" || flavor == "emptyrules":
+			case base == "" || base == "emptyrules":
 				info.svcClass = "ok"
 				w.svcOK[string(ui.body)] = true
-			case flavor == "notjson":
+			case base == "notjson":
 				info.svcClass = "garbage"
-			default:
-				info.svcClass = "ambiguous"
-				if flavor == "nilentry" {
+			case slices.Contains(vc13SvcInvalidEntries, base):
+				// Delivered completely, an entry is refused: the whole
+				// index is refused, as the unchanged code does.
+				info.svcClass = "invalid-entry"
+				if base == "nilentry" {
 					w.svcNil[string(ui.body)] = true
 				}
+			default:
+				info.svcClass = "ambiguous"
 			}
 		}
 
@@ -993,7 +1005,14 @@ func (w *vc13World) checkRound(
 		res.faultAfterSuccess = true
 	}
 
-	if ri > 0 && hits["/svc"] > 0 && (info.svcClass == "ambiguous" || info.svcClass == "garbage") {
+	if ri > 0 && hits["/svc"] > 0 && info.svcClass == "invalid-entry" {
+		cls("service-index-invalid-entry:" + info.svcFlavor + ":" + info.svcPos)
+		if info.svcPos != "last" {
+			cls("service-index-invalid-entry-not-last")
+		}
+	}
+
+	if ri > 0 && hits["/svc"] > 0 && (info.svcClass == "ambiguous" || info.svcClass == "garbage" || info.svcClass == "invalid-entry") {
 		res.faultAfterSuccess = true
 
 		// What the code does with a service index that has an invalid entry
@@ -1231,7 +1250,10 @@ func (w *vc13World) checkRound(
 				}
 				check(s, []int{b, ui.ver}, must, "service index delivered completely")
 			case info.svcClass == "ambiguous":
-				check(s, []int{b, ui.ver}, nil, "service index with an invalid entry: previous, or the valid entries of the new one")
+				check(s, []int{b, ui.ver}, nil, "service index with a mistyped entry: previous, or the valid entries of the new one")
+			case info.svcClass == "invalid-entry":
+				check(s, []int{b}, nil, "service index with an entry that is refused ("+info.svcFlavor+", "+info.svcPos+
+					"): the whole index is refused, the previous services stay")
 			default:
 				check(s, []int{b}, nil, "its download failed: "+string(ui.kind)+" "+info.svcFlavor)
 			}
@@ -1278,6 +1300,27 @@ func (w *vc13World) checkRound(
 			}
 
 			check(s, []int{b, 0}, must, "the new index does not list it")
+
+			continue
+		}
+
+		// A list whose file is within its staleness interval is not
+		// downloaded: the code reads the file, and after a round in which
+		// nothing failed the list serves what the file holds, as a fresh
+		// storage over the same directory would.
+		if fileVer := w.vers[s.file][string(before.Files[s.file])]; slices.Contains(rd.Fresh, name) &&
+			before.Files[s.file] != nil && fileVer != 0 && hits[s.path] == 0 && hits[s.path+"/dup"] == 0 {
+			var must []int
+			if chain {
+				must = []int{fileVer}
+			}
+
+			cls("rule-list-file-within-staleness")
+			if chain && progress && fileVer != b {
+				cls("successful-round-after-failed-round-within-staleness")
+			}
+
+			check(s, []int{b, fileVer}, must, fmt.Sprintf("its file, version %d, is within the staleness interval and is not downloaded again", fileVer))
 
 			continue
 		}
@@ -1709,7 +1752,13 @@ func vc13RunSeq(
 		}
 
 		before = after
-		vc13AgeFiles(w.dir)
+
+		var fresh []string
+		if ri+1 < len(seq.Rounds) {
+			fresh = seq.Rounds[ri+1].Fresh
+		}
+
+		vc13AgeFilesExcept(w.dir, fresh)
 	}
 
 	classes = append(classes, w.checkRestart(seq, before, seq.CacheOn, nil)...)
@@ -2008,9 +2057,10 @@ func vc13GenSeq(t *rapid.T) (seq *vc13Seq) {
 				}
 			case s.kind == vc13KindSvc && rapid.IntRange(0, 2).Draw(t, lbl+"-svc-content") == 0:
 				rd.S[s.name] = vc13Script{
-					Kind:   vc13OKNew,
-					Fill:   rapid.IntRange(0, 12).Draw(t, lbl+"-svc-fill"),
-					Flavor: rapid.SampledFrom([]string{"badid", "nilentry", "typeerr", "notjson"}).Draw(t, lbl+"-svc-flavor"),
+					Kind: vc13OKNew,
+					Fill: rapid.IntRange(0, 12).Draw(t, lbl+"-svc-fill"),
+					Flavor: rapid.SampledFrom(append([]string{"typeerr", "notjson"}, vc13SvcInvalidEntries...)).Draw(t, lbl+"-svc-flavor") +
+						"@" + rapid.SampledFrom(vc13SvcPositions).Draw(t, lbl+"-svc-pos"),
 				}
 			default:
 				rd.S[s.name] = vc13GenFault(t, lbl+"-"+s.name, &hangs)
@@ -2030,6 +2080,13 @@ func vc13GenSeq(t *rapid.T) (seq *vc13Seq) {
 		rd.Tight = rapid.IntRange(0, 5).Draw(t, lbl+"-tight") == 0
 		rd.Dribble = rapid.IntRange(0, 3).Draw(t, lbl+"-dribble") == 0
 		rd.Parallel = rapid.IntRange(0, 3).Draw(t, lbl+"-parallel") == 0
+		if rapid.IntRange(0, 2).Draw(t, lbl+"-fresh") == 0 {
+			for _, name := range vc13RuleNames {
+				if rapid.IntRange(0, 3).Draw(t, lbl+"-fresh-"+name) != 0 {
+					rd.Fresh = append(rd.Fresh, name)
+				}
+			}
+		}
 		if rapid.IntRange(0, 7).Draw(t, lbl+"-cancel") == 0 {
 			rd.CancelReq = rapid.IntRange(1, len(vc13Targets)).Draw(t, lbl+"-cancel-req")
 			rd.CancelMid = rapid.Bool().Draw(t, lbl+"-cancel-mid")
@@ -2060,7 +2117,8 @@ var vc13RequiredClasses = []string{
 	"file-source-larger-than-limit", "restart-lowered:checked", "from-file:svc", "from-file:adult",
 	"non-200-success-class-with-valid-body", "non-200-redirect-class-without-location", "non-200-error-class",
 	"index-valid-json-wrong-top-level-shape", "index-filters-value-not-an-array",
-	"index-entry-of-wrong-type-next-to-valid-entries",
+	"index-entry-of-wrong-type-next-to-valid-entries", "service-index-invalid-entry-not-last",
+	"successful-round-after-failed-round-within-staleness", "rule-list-file-within-staleness",
 	"parallel", "cancel:seen-by-the-code", "index-empty", "svc-emptyrules-applied", "probe:verdict-while-body-in-flight",
 	"size-limit:applied",
 	"fault:oversize", "fault:oversize_chunked", "fault:oversize_close", "fault:short_cl", "fault:chunk_trunc",
@@ -2201,6 +2259,39 @@ func vc13GridSeqs() (seqs []*vc13Seq) {
 			mid.S["adult"] = vc13Script{Kind: k, Fill: 3, CutPct: cut}
 			seqs = append(seqs, three(mid))
 		}
+	}
+
+	// A round that fails after the rule lists were downloaded (the service
+	// index or a safe-search list fails, or the context expires there), then
+	// a good round while the files of the rule lists are within the staleness
+	// interval, then another good one.
+	for _, tg := range []string{"svc", "ssg", "ssy"} {
+		for _, sc := range []vc13Script{
+			{Kind: vc13S500, Fill: 3},
+			{Kind: vc13HangHdr},
+			{Kind: vc13ConnClose},
+			{Kind: vc13Status, Code: 203, Body: "junk"},
+		} {
+			for _, fresh := range [][]string{{"a", "b", "c"}, {"b"}} {
+				bad := okRound()
+				bad.S[tg] = sc
+				retry := okRound()
+				retry.Fresh = fresh
+				seqs = append(seqs, &vc13Seq{CacheOn: true, Rounds: []vc13Round{okRound(), bad, retry, okRound()}})
+			}
+		}
+	}
+
+	{
+		bad := okRound()
+		bad.S["ssy"] = vc13Script{Kind: vc13HangHdr}
+		bad.Tight = true
+		retry := okRound()
+		retry.Fresh = []string{"a", "b", "c"}
+		seqs = append(seqs, &vc13Seq{CacheOn: false, Rounds: []vc13Round{okRound(), bad, retry, okRound()}})
+
+		// Fresh files without a failed round before: nothing to download.
+		seqs = append(seqs, &vc13Seq{CacheOn: true, Rounds: []vc13Round{okRound(), retry, okRound()}})
 	}
 
 	// Valid JSON of the wrong shape, after a good round and before another.
@@ -2374,10 +2465,20 @@ func vc13GridSeqs() (seqs []*vc13Seq) {
 		seqs = append(seqs, &vc13Seq{CacheOn: false, Rounds: []vc13Round{dup0, okRound()}})
 	}
 
-	for _, fl := range []string{"badid", "nilentry", "typeerr", "notjson"} {
+	for _, fl := range []string{"typeerr", "notjson"} {
 		mid := okRound()
 		mid.S["svc"] = vc13Script{Kind: vc13OKNew, Fill: 3, Flavor: fl}
 		seqs = append(seqs, three(mid))
+	}
+
+	// A service index with an entry that is refused, first, between the valid
+	// ones and last; also mistyped and empty-rules entries at every place.
+	for _, fl := range append([]string{"typeerr", "emptyrules"}, vc13SvcInvalidEntries...) {
+		for _, pos := range vc13SvcPositions {
+			mid := okRound()
+			mid.S["svc"] = vc13Script{Kind: vc13OKNew, Fill: 3, Flavor: fl + "@" + pos}
+			seqs = append(seqs, three(mid))
+		}
 	}
 
 	// Processing-level faults: a complete download that the parser of the
@@ -2512,6 +2613,14 @@ func TestVerifC13FaultGrid(t *testing.T) {
 		req = append(req, "index-mistyped:"+typ)
 	}
 
+	for _, fl := range vc13SvcInvalidEntries {
+		for _, pos := range vc13SvcPositions {
+			req = append(req, "service-index-invalid-entry:"+fl+":"+pos)
+		}
+	}
+
+	req = append(req, "service-index-invalid-entry-not-last", "successful-round-after-failed-round-within-staleness",
+		"rule-list-file-within-staleness")
 	req = append(req, "index-valid-json-wrong-top-level-shape", "index-filters-value-not-an-array",
 		"index-entry-of-wrong-type-next-to-valid-entries")
 	req = append(req, "non-200-success-class-with-valid-body", "non-200-redirect-class-without-location")
